@@ -10,7 +10,8 @@ TRUSTED = [
     "model KyroModel/Persist/Codec.lean: byte-level frame scanner (length, payload, CRC-32 as a parameter); tie: `codec` correspondence on damaged byte strings",
     "not proved: that CRC-32 detects every single-bit flip (a property of the polynomial; exercised on every flip enumerated); bincode payload decoding; the server binary's start-up wrapper",
 ]
-KINDS = {"c13-wal-silent-prefix", "c13-snapshot-fallback", "c13-manifest-altered", "c13-wal-altered-entry",
+KINDS = {"c13-wal-silent-prefix:trunc", "c13-wal-silent-prefix:len", "c13-wal-silent-prefix:payload", "c13-wal-silent-prefix:crc",
+         "c13-wal-silent-prefix:magic", "c13-wal-silent-prefix:tail", "c13-snapshot-fallback", "c13-manifest-altered", "c13-wal-altered-entry",
          "c13-wal-corruption-accepted", "c13-wal-missing-accepted", "c13-snapshot-altered",
          "c13-manifest-gone-accepted", "c13-other", "panic"}
 
